@@ -811,6 +811,7 @@ func checkAuthentication(validCredentials []Credentials, expectedRegion string, 
 }
 
 type awsChunkReadCloser struct {
+	finished                       bool
 	ctx                            context.Context
 	innerCloser                    io.Closer
 	innerBuf                       *bufio.Reader
@@ -924,11 +925,22 @@ func (r *awsChunkReadCloser) validateTrailerChecksum(checksumHeader string) erro
 	return nil
 }
 
+func unexpectedEOF(err error) error {
+	if err == io.EOF {
+		return io.ErrUnexpectedEOF
+	}
+	return err
+}
+
 func (r *awsChunkReadCloser) Read(p []byte) (n int, err error) {
+	if r.finished {
+		return 0, io.EOF
+	}
 	if r.chunkBytesRemaining <= 0 {
 		chunkMetadata, err := r.innerBuf.ReadBytes('\n')
 		if err != nil {
-			return 0, err
+			// the stream must end with the zero-length chunk
+			return 0, unexpectedEOF(err)
 		}
 		split := bytes.SplitN(bytes.Trim(chunkMetadata, "\r\n"), []byte(";chunk-signature="), 2)
 		hexLen := string(split[0])
@@ -974,9 +986,10 @@ func (r *awsChunkReadCloser) Read(p []byte) (n int, err error) {
 			} else {
 				_, err := r.innerBuf.Discard(2) // Discard the final \r\n
 				if err != nil {
-					return 0, err
+					return 0, unexpectedEOF(err)
 				}
 			}
+			r.finished = true
 			return 0, io.EOF // End of the chunked transfer
 		}
 	}
@@ -985,6 +998,7 @@ func (r *awsChunkReadCloser) Read(p []byte) (n int, err error) {
 		p = p[:r.chunkBytesRemaining] // Limit the read to the remaining bytes in the chunk
 	}
 	n, err = io.ReadFull(r.innerBuf, p)
+	err = unexpectedEOF(err)
 	if !r.skipChunkValidation {
 		r.chunkHasher.Write(p[:n])
 	}
@@ -995,7 +1009,7 @@ func (r *awsChunkReadCloser) Read(p []byte) (n int, err error) {
 	if r.chunkBytesRemaining == 0 {
 		_, err := r.innerBuf.Discard(2) // Discard the trailing \r\n
 		if err != nil {
-			return 0, err
+			return 0, unexpectedEOF(err)
 		}
 		if !r.skipChunkValidation {
 			err = r.validateSignature()
